@@ -816,3 +816,96 @@ impl RefParser {
         }
     }
 }
+
+/// Canonical 7-bit rendering of a reference function: feeding it to a terminal whose parser is in
+/// Ground must execute exactly this function (used by C03's end-to-end comparison).
+pub fn render(rf: &RF) -> String {
+    use crate::obs::MColor;
+    let modes = |v: &Vec<u16>| v.iter().map(|m| m.to_string()).collect::<Vec<_>>().join(";");
+    let col = |base: u32, c: &MColor| match c {
+        MColor::Idx(i) => format!("{}:5:{}", base + 8, i),
+        MColor::Rgb(r, g, b) => format!("{}:2:{}:{}:{}", base + 8, r, g, b),
+    };
+    match rf {
+        RF::Bs => "\x08".into(),
+        RF::Cbt(n) => format!("\x1b[{}Z", n),
+        RF::Cha(n) => format!("\x1b[{}G", n),
+        RF::Cht(n) => format!("\x1b[{}I", n),
+        RF::Cnl(n) => format!("\x1b[{}E", n),
+        RF::Cpl(n) => format!("\x1b[{}F", n),
+        RF::Cr => "\r".into(),
+        RF::CtcSet => "\x1b[0W".into(),
+        RF::CtcClearCol => "\x1b[2W".into(),
+        RF::CtcClearAll => "\x1b[5W".into(),
+        RF::Cub(n) => format!("\x1b[{}D", n),
+        RF::Cud(n) => format!("\x1b[{}B", n),
+        RF::Cuf(n) => format!("\x1b[{}C", n),
+        RF::Cup(r, c) => format!("\x1b[{};{}H", r, c),
+        RF::Cuu(n) => format!("\x1b[{}A", n),
+        RF::Dch(n) => format!("\x1b[{}P", n),
+        RF::Decaln => "\x1b#8".into(),
+        RF::Decrc => "\x1b8".into(),
+        RF::Decrst(m) => format!("\x1b[?{}l", modes(m)),
+        RF::Decsc => "\x1b7".into(),
+        RF::Decset(m) => format!("\x1b[?{}h", modes(m)),
+        RF::Decstbm(t, b) => format!("\x1b[{};{}r", t, b),
+        RF::Decstr => "\x1b[!p".into(),
+        RF::Dl(n) => format!("\x1b[{}M", n),
+        RF::Ech(n) => format!("\x1b[{}X", n),
+        RF::Ed(n) => format!("\x1b[{}J", n),
+        RF::El(n) => format!("\x1b[{}K", n),
+        RF::G0(d) => format!("\x1b({}", if *d { '0' } else { 'B' }),
+        RF::G1(d) => format!("\x1b){}", if *d { '0' } else { 'B' }),
+        RF::Ht => "\t".into(),
+        RF::Hts => "\x1bH".into(),
+        RF::Ich(n) => format!("\x1b[{}@", n),
+        RF::Il(n) => format!("\x1b[{}L", n),
+        RF::Lf => "\n".into(),
+        RF::Nel => "\x1bE".into(),
+        RF::Print(c) => c.to_string(),
+        RF::Rep(n) => format!("\x1b[{}b", n),
+        RF::Ri => "\x1bM".into(),
+        RF::Ris => "\x1bc".into(),
+        RF::Rm(m) => format!("\x1b[{}l", modes(m)),
+        RF::Scorc => "\x1b[u".into(),
+        RF::Scosc => "\x1b[s".into(),
+        RF::Sd(n) => format!("\x1b[{}T", n),
+        RF::Sgr(ops) => {
+            // one sequence per op keeps the 32-parameter cap out of the picture
+            let mut s = String::new();
+            for op in ops {
+                let p = match op {
+                    RSgr::Reset => "0".to_string(),
+                    RSgr::Bold => "1".into(),
+                    RSgr::Faint => "2".into(),
+                    RSgr::Italic => "3".into(),
+                    RSgr::Underline => "4".into(),
+                    RSgr::Blink => "5".into(),
+                    RSgr::Inverse => "7".into(),
+                    RSgr::Strike => "9".into(),
+                    RSgr::NoIntensity => "22".into(),
+                    RSgr::NoItalic => "23".into(),
+                    RSgr::NoUnderline => "24".into(),
+                    RSgr::NoBlink => "25".into(),
+                    RSgr::NoInverse => "27".into(),
+                    RSgr::NoStrike => "29".into(),
+                    RSgr::Fg(c) => col(30, c),
+                    RSgr::NoFg => "39".into(),
+                    RSgr::Bg(c) => col(40, c),
+                    RSgr::NoBg => "49".into(),
+                };
+                s.push_str(&format!("\x1b[{}m", p));
+            }
+            s
+        }
+        RF::Si => "\x0f".into(),
+        RF::Sm(m) => format!("\x1b[{}h", modes(m)),
+        RF::So => "\x0e".into(),
+        RF::Su(n) => format!("\x1b[{}S", n),
+        RF::TbcCol => "\x1b[0g".into(),
+        RF::TbcAll => "\x1b[3g".into(),
+        RF::Vpa(n) => format!("\x1b[{}d", n),
+        RF::Vpr(n) => format!("\x1b[{}e", n),
+        RF::XtResize(c, r) => format!("\x1b[8;{};{}t", r, c),
+    }
+}
